@@ -39,6 +39,7 @@ type gate struct {
 	readers      sync.Map // goroutine id -> *reader
 	stores       atomic.Int64
 	atSecondLoad atomic.Int32
+	napHint      atomic.Int32 // set by the driver when the behaviour goes on with two refreshes: the slow reader naps on its next load
 }
 
 func (g *gate) yield(point string) {
@@ -56,8 +57,10 @@ func (g *gate) yield(point string) {
 		if v, ok := g.readers.Load(goid()); ok {
 			if rd := v.(*reader); rd.slow {
 				rd.naps++
-				if rd.naps%8 == 0 {
-					time.Sleep(1500 * time.Microsecond)
+				// when to nap is a hint the driver gave BEFORE the writer's next steps (two refreshes are about to follow): that
+				// orders the reader after what came before the hint only
+				if g.napHint.CompareAndSwap(1, 0) || rd.naps%64 == 0 {
+					time.Sleep(6 * time.Millisecond)
 				}
 			}
 		}
@@ -286,6 +289,19 @@ func RunReaders(args []string) *rep.Report {
 					break
 				}
 				writerParkedReads += rds[0].beat.Load() - before
+			}
+			if st.A == "RefreshPublish" || st.A == "MissPublish" {
+				// two refreshes ahead? then the slow reader should sit on the snapshot it loads next
+				ahead := 0
+				for _, nx := range b.Steps[i+1:] {
+					if nx.A == "RefreshPublish" {
+						ahead++
+					}
+				}
+				if ahead >= 2 {
+					d.gate.napHint.Store(1)
+					time.Sleep(150 * time.Microsecond) // long enough for the reader to load and settle down
+				}
 			}
 			if !hasTick && (st.A == "RefreshPublish" || st.A == "MissPublish") {
 				for k, v := range st.Vis {
